@@ -1,4 +1,5 @@
 import PebblesVerif.Model.Sanitize
+import PebblesVerif.Gen.Nulls
 /-!
 Model of `ScrubFields.Clean` / `clean` (planner/scrub_fields.go:72-131). Go ranges over maps:
 the order of paths and — at the end of a path — the order of type names is arbitrary; the model
@@ -21,12 +22,60 @@ def cleanHere (payload : List (String × J)) (fields : List (String × List Stri
   | none => payload
 
 mutual
-  /-- `clean(payload, path, fields)`: returns the new payload and "payload is now empty" -/
-  def clean (fields : List (String × List String)) : List String → List (String × J) → List (String × J) × Bool
+  /-- `clean(payload, path, fields)`: returns the new payload and "payload is now empty".
+      `keepNonMap` = the `[]interface{}` case has the arm `else { removeParent = false }`. -/
+  def cleanW (keepNonMap : Bool) (fields : List (String × List String)) :
+      List String → List (String × J) → List (String × J) × Bool
     | [], payload =>
       let p := cleanHere payload fields
       (p, p.isEmpty)
     | p :: rest, payload =>
+      match J.lookup p payload with
+      | none => (payload, false)
+      | some obj =>
+        let (obj', removeParent) : J × Bool :=
+          match obj with
+          | .obj v => let (v', e) := cleanW keepNonMap fields rest v; (.obj v', e)
+          | .arr xs =>
+            let (xs', allEmpty) := cleanListW keepNonMap fields rest xs
+            (.arr xs', if xs.isEmpty then false else allEmpty)
+          | other => (other, false)
+        let payload' := if removeParent then J.eraseKey p payload else J.setKey p obj' payload
+        (payload', payload'.isEmpty)
+  /-- the elements of a list: maps are cleaned, everything else is left alone; the flag is the
+      conjunction over the map elements — and, with the arm `else { removeParent = false }` (after
+      the repair), false as soon as there is a non-map element (null, scalar); without it such
+      elements do not count (true when the list has no map element at all: a list of nulls was
+      deleted from the response) -/
+  def cleanListW (keepNonMap : Bool) (fields : List (String × List String)) (rest : List String) :
+      List J → List J × Bool
+    | [] => ([], true)
+    | .obj v :: xs =>
+      let (v', e) := cleanW keepNonMap fields rest v
+      let (xs', es) := cleanListW keepNonMap fields rest xs
+      (.obj v' :: xs', e && es)
+    | x :: xs =>
+      let (xs', es) := cleanListW keepNonMap fields rest xs
+      (x :: xs', if keepNonMap then false else es)
+end
+
+/-- `ScrubFields.clean` as the code reads now: whether a non-map element keeps the list is a
+    regenerated fact (`Gen.Nulls.cleanKeepsListWithNonMapElement`, read from planner/scrub_fields.go
+    on every run) -/
+@[reducible] def clean : List (String × List String) → List String → List (String × J) → List (String × J) × Bool :=
+  cleanW Gen.Nulls.cleanKeepsListWithNonMapElement
+
+@[reducible] def cleanList : List (String × List String) → List String → List J → List J × Bool :=
+  cleanListW Gen.Nulls.cleanKeepsListWithNonMapElement
+
+/-! the defining equations, in terms of `clean` / `cleanList` themselves -/
+
+theorem clean_nil (fields : List (String × List String)) (payload : List (String × J)) :
+    clean fields [] payload = (cleanHere payload fields, (cleanHere payload fields).isEmpty) := by
+  rw [clean, cleanW]
+
+theorem clean_cons (fields : List (String × List String)) (p : String) (rest : List String) (payload : List (String × J)) :
+    clean fields (p :: rest) payload =
       match J.lookup p payload with
       | none => (payload, false)
       | some obj =>
@@ -38,19 +87,27 @@ mutual
             (.arr xs', if xs.isEmpty then false else allEmpty)
           | other => (other, false)
         let payload' := if removeParent then J.eraseKey p payload else J.setKey p obj' payload
-        (payload', payload'.isEmpty)
-  /-- the elements of a list: maps are cleaned, everything else is skipped; the flag is the
-      conjunction over the map elements (true when there is none) -/
-  def cleanList (fields : List (String × List String)) (rest : List String) : List J → List J × Bool
-    | [] => ([], true)
-    | .obj v :: xs =>
-      let (v', e) := clean fields rest v
-      let (xs', es) := cleanList fields rest xs
-      (.obj v' :: xs', e && es)
-    | x :: xs =>
-      let (xs', es) := cleanList fields rest xs
-      (x :: xs', es)
-end
+        (payload', payload'.isEmpty) := by
+  rw [clean, cleanW]
+
+theorem cleanList_nil (fields : List (String × List String)) (rest : List String) :
+    cleanList fields rest [] = ([], true) := by
+  rw [cleanList, cleanListW]
+
+theorem cleanList_obj (fields : List (String × List String)) (rest : List String) (v : List (String × J)) (xs : List J) :
+    cleanList fields rest (.obj v :: xs) =
+      ((.obj (clean fields rest v).1 :: (cleanList fields rest xs).1),
+       ((clean fields rest v).2 && (cleanList fields rest xs).2)) := by
+  rw [cleanList, cleanListW]
+
+/-- a non-map element stays where it is; whether it keeps the list from being deleted is the fact -/
+theorem cleanList_nonMap (fields : List (String × List String)) (rest : List String) (x : J) (xs : List J)
+    (hx : ∀ v, x ≠ .obj v) :
+    cleanList fields rest (x :: xs) =
+      (x :: (cleanList fields rest xs).1,
+       if Gen.Nulls.cleanKeepsListWithNonMapElement then false else (cleanList fields rest xs).2) := by
+  rw [cleanList, cleanListW]
+  intro v h; exact hx v h
 
 /-- `ScrubFields.Clean` -/
 def cleanAll (sf : Scrub) (payload : List (String × J)) : List (String × J) :=
